@@ -216,9 +216,4 @@ theorem move_score_unwrap_safe (pc : Gen.Fns.Piece) (s e : Gen.Fns.Position) :
   rfl
 #print axioms move_score_unwrap_safe
 
-/-- `ENDGAME_THRESHOLD` (the constant expression `1500 + 20000` in `scores.rs`, evaluated in `u32`) is the
-value `tools/extract.py` reads as data -/
-theorem ENDGAME_THRESHOLD_eq : Gen.Fns.ENDGAME_THRESHOLD.toNat = Gen.endgameThreshold := by decide +kernel
-#print axioms ENDGAME_THRESHOLD_eq
-
 end Chess.FnsEquiv
